@@ -1,0 +1,31 @@
+//go:build verif
+
+package consensus
+
+import "github.com/icon-project/goloop/module"
+
+func VerifMatchNID(a, b uint32) bool { return matchNID(a, b) }
+
+func VerifDSVote(m *VoteMessage) module.DoubleSignData         { return &dsVote{m} }
+func VerifDSProposal(m *ProposalMessage) module.DoubleSignData { return &dsProposal{m} }
+
+func VerifVoteNID(m *VoteMessage) (uint32, error) { return m.NID() }
+func VerifVoteBytes(m *VoteMessage) []byte        { return msgCodec.MustMarshalToBytes(m) }
+func VerifProposalHash(m *ProposalMessage) []byte { return m.hash() }
+func VerifProposalSigner(m *ProposalMessage) []byte {
+	a := m.address()
+	if a == nil {
+		return nil
+	}
+	return a.Bytes()
+}
+
+type VerifDSMLog struct{ l dsmLog }
+
+func VerifNewDSMLog(cap int) *VerifDSMLog { return &VerifDSMLog{makeDSMLog(cap)} }
+func (l *VerifDSMLog) LogVote(m *VoteMessage) []module.DoubleSignData {
+	return l.l.LogAndCheckVoteMessage(m)
+}
+func (l *VerifDSMLog) LogProposal(m *ProposalMessage) []module.DoubleSignData {
+	return l.l.LogAndCheckProposalMessage(m)
+}
